@@ -13,7 +13,7 @@ RULE = ("event sequences over {valid broadcast of each family, foreign bytes, tr
         "alphabet on 2 ports; broadcasts sent while start() is still opening ports; a bridge (and the owner of its callback) that the application no longer references; byte-identical datagrams repeated on the same and on other ports, sent one at a time; non-trivial = distinct sequences holding a valid broadcast after a bad datagram or a raising callback")
 REQUIREMENT = ("per port, the callback log = the decoded devices of exactly the valid broadcasts sent to that port, in sending order "
                "(expected_bcast of Spec/Encoders.v for each), regardless of everything else and of raising callbacks")
-LETTERS = ["wh", "pp", "sh", "th", "foreign", "trunc", "flip", "unknown", "badname", "badtime"]
+LETTERS = ["wh", "pp", "sh", "th", "foreign", "trunc", "flip", "unknown", "badname", "badtime", "oddfield"]
 FAMILY = {"wh": ["MINI", "TOUCH", "V2_ESP", "V2_QCA", "V4"], "pp": ["POWER_PLUG"], "sh": ["RUNNER", "RUNNER_MINI"], "th": ["BREEZE"]}
 
 
@@ -40,6 +40,13 @@ def make_event(rnd, letter, port, seq):
         else: x[75] ^= 1 << rnd.randrange(8); x[74:76] = bytes(x[74:76]) if bytes(x[74:76]) not in c06.known_codes() else b"\xee\x01"
         return bytes(x), None
     if letter == "badname": x[42] = 0xff; return bytes(x), None
+    if letter == "oddfield":
+        # a broadcast of a known family with a byte outside its table in one enumerated field (mode, fan level, direction, state): whether
+        # it is a device (with a default) or an error inside the handler is the decoder's reading (model = Spec of C07's `delivered`)
+        off = {168: [137, 138, 140], 159: [137, 138], 165: [133]}[len(x)]
+        x[rnd.choice(off)] = rnd.choice([0, 6, 7, 0x40, 0x7f, 0x80, 0xff])
+        m = lib.run_model([lib.req("bcast", bytes(x))])[0]
+        return bytes(x), (m if "|" in m else None)
     if letter == "badtime":
         x[74:76] = bytes.fromhex("030f"); x = x[:165] + bytearray(165 - len(x[:165])); x[133] = 1; x[155:159] = b"\xff\xff\xff\x7f"; return bytes(x), None
     raise AssertionError(letter)
